@@ -183,6 +183,16 @@ def rule_api(ctx) -> None:
                               ("reported messages are not derived from the error" if not uses else
                                f"the variant rebuilds its messages from a rewritten error text (`{src((rewrites or [None])[0])[:50] if rewrites else 'str(e).strip()'}`): a key with a leading / trailing blank "
                                "loses it and a key containing a newline turns one message into two - the variants disagree with the raised ConfigError"))
+    # the error object the variants take their messages from carries them per instance: a container bound at class level and
+    # extended through self is one object for every error of the process - a verdict then repeats the messages of earlier ones
+    from .. import hazards
+    em = "clematis.errors"
+    n_cls = sum(1 for x in ast.walk(ctx.prog.module(em).tree) if isinstance(x, ast.ClassDef))
+    ctx.floor("C14.API", "error classes", n_cls, 3)
+    for cls, attr, d, fn, c in hazards.shared_class_state(ctx, em):
+        ctx.violation("C14.API", ctx.okey(f"{fn.qual}/error-messages-per-instance"), fn.loc(c),
+                      f"`{cls}.{attr}` is a container bound at class level and `{src(c)[:50]}` extends it through the instance: every {cls} of the process shares it, so a variant that reports "
+                      "e." + attr + " returns the findings of earlier validations too - the same input gives different messages depending on what was validated before")
     sc = ctx.prog.modules.get("clematis.scripts.validate")
     if sc is None:
         raise AnalysisError("anchor-vanished: clematis.scripts.validate")
